@@ -10,13 +10,32 @@
    statistics. *)
 From Coq Require Import List Bool String ZArith.
 From FM Require Import Base.Result Base.AstOp Model.Ast Model.FM Model.PFM Format.Xml Format.Ref
-     Proofs.FideFacts Proofs.RefFacts Proofs.C09Facts Proofs.AfmVariant Proofs.JsonVariant Format.Json Format.Glencoe Format.Afm.
+     Proofs.C16Facts Proofs.FideFacts Proofs.RefFacts Proofs.C09Facts Proofs.AfmVariant Proofs.JsonVariant Format.Json Format.Glencoe Format.Afm.
 Import ListNotations.
 Local Open Scope list_scope.
 
-Theorem C09_fama_denotes : forall ch m, fama_ok m = true -> fama_read (fama_emit ch m) = Ok (annotate_fm m).
+(* CHANGED STATEMENT (reader fix: a binaryRelation / setRelation without child features is a FlamaException).  The
+   fragment predicate [fama_ok] allows a relation without children, which the emitter writes and the reader now
+   rejects, so the statement was FALSE as it stood:
+     Theorem C09_fama_denotes : forall ch m, fama_ok m = true -> fama_read (fama_emit ch m) = Ok (annotate_fm m).
+   (counterexample: C09_fama_old_statement_false).  One hypothesis is added: [rels_nonempty (root m)] (C16Facts.v,
+   the hypothesis of C16_max_depth: every relation of the tree has a child); it is necessary as well
+   (C09_fama_denotes_needs_nonempty). *)
+Theorem C09_fama_denotes : forall ch m, fama_ok m = true -> rels_nonempty (root m) ->
+  fama_read (fama_emit ch m) = Ok (annotate_fm m).
 Proof. exact fama_denotes. Qed.
 Print Assumptions C09_fama_denotes.
+Theorem C09_fama_denotes_needs_nonempty : forall ch m,
+  fama_read (fama_emit ch m) = Ok (annotate_fm m) -> rels_nonempty (root m).
+Proof. exact fama_denotes_needs_nonempty. Qed.
+Print Assumptions C09_fama_denotes_needs_nonempty.
+Example C09_fama_old_statement_false :
+  fama_ok ref_m1_empty = true
+  /\ map (fun ch => fama_read (fama_emit ch ref_m1_empty)) ref_all_choices
+     = map (fun _ => Err FlamaException) ref_all_choices
+  /\ ~ rels_nonempty (root ref_m1_empty).
+Proof. exact fama_denotes_old_false. Qed.
+Print Assumptions C09_fama_old_statement_false.
 
 Theorem C09_fide_graphics_description_flags : forall x, xml_keys_unique x -> fide_read (fide_strip x) = fide_read x.
 Proof. exact fide_read_strip. Qed.
@@ -71,8 +90,8 @@ Theorem C09_glencoe_nary_terms : forall fuel fi ty o x xs n ns,
 Proof. exact glencoe_nary_fold. Qed.
 Print Assumptions C09_glencoe_nary_terms.
 
-(* non-vacuity: a reference model with an empty relation, a negative cardinality and two constraints is in
-   the FaMa fragment; a FeatureIDE document with graphics / description elements and unique attribute keys
+(* non-vacuity: a reference model with a negative cardinality and two constraints is in the FaMa fragment and has
+   no relation without children; a FeatureIDE document with graphics / description elements and unique attribute keys
    is read, and read the same after stripping *)
 Definition ex09 : xml :=
   Elem "featureModel" [] None
@@ -87,11 +106,11 @@ Definition ex09 : xml :=
         [ Elem "rule" [] None [ Elem "disj" [] None [ Elem "var" [] (Some "A") []; Elem "var" [] (Some "B") [];
                                                        Elem "not" [] None [Elem "var" [] (Some "C") []] ] ] ] ]%string.
 Example C09_nonvacuous :
-  fama_ok ref_m1 = true /\ xml_keys_unique ex09
+  fama_ok ref_m1 = true /\ rels_nonempty (root ref_m1) /\ xml_keys_unique ex09
   /\ (exists pm, fide_read ex09 = Ok pm /\ List.length (pctcs pm) = 1%nat)
   /\ fide_read (fide_strip ex09) = fide_read ex09.
 Proof.
-  split; [exact ref_m1_ok|]. split.
+  split; [exact ref_m1_ok|]. split; [exact ref_m1_nonempty|]. split.
   - repeat first [apply KU | apply Forall_cons | apply Forall_nil | apply NoDup_cons | apply NoDup_nil
                   | (cbn; intuition discriminate)].
   - split; [vm_compute; eexists; split; reflexivity|]. vm_compute. reflexivity.
